@@ -184,7 +184,9 @@ def inverse_case(draw, tier="quick"):
     hi = 12 if tier == "quick" else 32
     shape = draw(gen.shape2(1, hi))
     f = draw(gen.complex_array(shape))
-    return {"f": f, "unitary": draw(st.booleans()), "out": draw(st.sampled_from(["none", "none", "dirty"]))}
+    # (the spectrum handed to idft2 as dft2 returned it, or stored in single / extended precision in between)
+    return {"f": f, "unitary": draw(st.booleans()), "out": draw(st.sampled_from(["none", "none", "dirty"])),
+            "F_dtype": draw(st.sampled_from(["complex128", "complex128", "complex64", "complex64", "clongdouble"]))}
 
 
 @hyp("C01", "inverse", lambda tier: inverse_case(tier),
@@ -202,15 +204,22 @@ def inverse(case, ctx):
     sumabs = float(np.sum(np.abs(f)))
     with lentil_call("C01.inverse", "dft2"):
         F = fourier.dft2(f, alpha, unitary=u)
+    fdt = case.get("F_dtype", "complex128")
+    e_F64 = float(np.sum(np.abs(F) ** 2))
+    if fdt != "complex128":
+        F = F.astype(fdt)
+        ctx.tag("spectrum_dtype:" + fdt)
     F_before = F.copy()
     out = None
-    if case["out"] == "dirty":
+    if case["out"] == "dirty" and fdt != "clongdouble":        # (np.dot cannot write extended precision into a complex128 buffer)
         out = np.full((m, n), 3.0 + 1j, dtype=complex)
     with lentil_call("C01.inverse", "idft2"):
         g = fourier.idft2(F, alpha, unitary=u, out=out) if out is not None else fourier.idft2(F, alpha, unitary=u)
     # rounding bound: phase args up to pi*max(m,n)/2 in each of two passes
     max_phase = np.pi * (m + n)
     tol = 64 * eps * (1 + max_phase) * sumabs + 1e-300
+    if fdt == "complex64":
+        tol += 4 * float(np.finfo(np.float32).eps) * float(np.sum(np.abs(F_before))) * (np.sqrt(abs(alpha[0] * alpha[1])) if u else abs(alpha[0] * alpha[1]))
     err = float(np.max(np.abs(g - f)))
     if not err <= tol:
         raise Violation("C01.inverse.roundtrip",
@@ -221,7 +230,7 @@ def inverse(case, ctx):
         raise Violation("C01.out.identity", "idft2(out=buf) did not return buf")
     if u:
         e_in = float(np.sum(np.abs(f) ** 2))
-        e_F = float(np.sum(np.abs(F) ** 2))
+        e_F = e_F64
         with lentil_call("C01.inverse", "idft2 energy"):
             e_g = float(np.sum(np.abs(fourier.idft2(f, alpha, unitary=True)) ** 2))
         rel = 256 * eps * (1 + max_phase)
